@@ -34,6 +34,21 @@ CHECKS = {
    technique="exhaustive enumeration of all 2^15 class-flag triples x custom settings, deviation-bounded exploration of the draws of the real Generate (each position forced to each alphabet index), token-level oracle from an independent model",
    text="Every flag triple is crossed with 9 custom-string settings and 3 lengths; Alphabet() must equal the model's alphabet exactly, and every password returned on policy tapes that force each alphabet index (including the last) at each position, and that make the first candidate miss each requirement in turn, must consist of Length single-character atoms from the alphabet, meet every live requirement and contain no excluded character.",
    note="Deviation bound 1 (quick) / 2 (thorough) draws per execution relative to a model-chosen valid candidate; complete outcome products are covered for small alphabets by C02. Full position x index forcing only for the 3-class flag subset; other triples force first/last position to indices 0,1,last."),
+ "C04": dict(
+   engine="E1-cells", category="model_checking", ref="§3 C04",
+   technique="stateless DFS over every outcome combination of every bounded draw of the real WLRecipe.Generate (complete cell); exact rational distribution over token sequences equals the uniform independent product",
+   text="For 10 word lists (sizes 1,2,3,5; twins, caseless, pre-capitalised, non-ASCII), lengths 1-3, the five schemes and 10 separator settings, every combination of word, capitalisation and separator draws is executed; each password's exact probability must equal that of the uniform product space pushed through title-casing - which fails if any coordinate is non-uniform, correlated, reused or out of range.",
+   note="Relies on C01; cells bounded (<=6000 leaves quick, <=300000 thorough); lists violating the title-casing premise are skipped when capitalisation is on; retrying separator recipes are outside complete cells."),
+ "C05": dict(
+   engine="E1-cells", category="model_checking", ref="§3 C05",
+   technique="the same complete cells, every leaf checked against the token grammar; deviation-bounded DFS (<=2-3 deviating draws) for separator recipes with retries",
+   text="Every password produced in the complete cells of C04's configuration set, plus unknown scheme strings, 255-character words, lengths 4-5 and multi-byte separators, is parsed token by token: A (S A)* with exactly Length atoms, separators from the separator's value set, capitalisation pattern per scheme, String()/Atoms()/Separators() consistent.",
+   note="Positions holding words that do not change under title-casing cannot reveal the capitalisation choice and are skipped; the empty word is outside the explored alphabet."),
+ "C06": dict(
+   engine="E1-cells", category="model_checking", ref="§3 C06",
+   technique="exact rational output distributions from complete-cell DFS of the real generators; max probability compared with 2^-Entropy()",
+   text="Uses the exact output distributions of C02's character cells and C04's wordlist cells (plus lists with uncapitalisable words under one/random): no password may be likelier than 2^-Entropy() (8 float32 ulps), equality must hold when generation is uniform, every returned Password.Entropy must be bit-identical to Entropy(), and Entropy() must not depend on the random stream.",
+   note="Same bounds as C02/C04; probabilities of retrying recipes are conditioned on success."),
 }
 
 PENDING_REASON = "check not built yet in this session (planned in DESIGN.md §3; will be claimed when its checker exists)"
